@@ -1,5 +1,7 @@
 import Mouette.Model.FrameField
 import Mouette.Lemmas.C18Lemmas
+import Mouette.Lemmas.C18Vertex
+import Mouette.Lemmas.C18Bridge
 /-
 C18 — Surface frame fields are unit, border-aligned and topologically consistent.   (PARTIAL)
 
@@ -286,5 +288,220 @@ example : cmul ((3/5, 4/5) : Cpx) (3/5, -4/5) = cone ∧ normSq ((3/5, 4/5) : Cp
   unfold cmul cone normSq; norm_num
 example : (2 : Rat) * 2 = (-2) * (-2) := by norm_num   -- `hr` of `constraint_tangent_every_order`, edge against the basis
 example : (4 : Rat) * (1 / 4) = ((1 : Int) : Rat) := by norm_num   -- `h` of `index_scale_every_order`
+
+/-! # Round 2 — the VERTEX-based field (`vertex2d.py`) and the connection / operator formulas
+
+Model: `Model/FrameFieldV.lean`. Source-shaped fragments: `Generated/C18Vertex.lean` (angles in turns, π = 1/2).
+Still NOT proved: that `spsolve` / the inverse power iteration return the harmonic extension / an eigenvector; the
+real-number facts `rect(1, 2π x)` is 1-periodic and multiplicative (the phases are handled as rationals modulo 1,
+`cmath.phase`, `cmath.rect`, `atan2` are evaluated by the implementation and the harness only); that the sum of the
+face curvatures is 2πχ (Gauss–Bonnet for the rescaled vertex connection: checked numerically, not needed by any clause
+of the statement, which speaks of indices for the face-based field only). -/
+section Vertex
+open Mouette.FFV Mouette.Lemmas.C18V Mouette.Lemmas.C18B Mouette.Generated
+
+/-! ## constraints at feature vertices -/
+
+/-- After `_initialize_variables` a feature vertex whose accumulated sum is above the threshold carries a UNIT constraint
+(`featV` = `feat.feature_vertices`, a set: no duplicates; `rs[A] = abs(sum)` with its defining hypothesis), whatever the
+order, the branch taken (guarded projection / transport) and the contributions are. -/
+theorem vertex_constraint_unit (order n : Nat) (smooth : Bool) (contribs : List (Nat × Cpx)) (featV : List Nat) (rs : List Rat)
+    (A : Nat) (hA : A ∈ featV) (hnd : featV.Nodup)
+    (hlt : A < (initVerts order n (guardedBranch smooth order) contribs).length)
+    (hthr : featThreshold < rs.getD A 0)
+    (hsqrt : rs.getD A 0 * rs.getD A 0 = normSq ((initVerts order n (guardedBranch smooth order) contribs).getD A czero)) :
+    normSq ((initVertsFull order n smooth contribs featV rs).getD A czero) = 1 := by
+  unfold initVertsFull
+  rw [normalizeFeature_eq]
+  exact foldl_stepNF_unit rs featV _ A hA hnd hlt hthr hsqrt
+
+/-- a vertex that is not a feature vertex is not touched by the normalisation of the initialisation -/
+theorem vertex_init_free_untouched (var : List Cpx) (featV : List Nat) (rs : List Rat) (i : Nat) (h : i ∉ featV) :
+    (normalizeFeature var featV rs).getD i czero = var.getD i czero := by
+  rw [normalizeFeature_eq]; exact foldl_stepNF_notin rs featV var i h
+
+/-- P2. In the guarded (projection) branch every accumulated sum is either still 0 or has squared modulus above the guard
+(`1e-10` squared): a contribution that would cancel the sum is dropped instead. (The feature normalisation uses the larger
+threshold `1e-8`: a sum with modulus in `(1e-10, 1e-8]` would stay non-unit — not observed on any generated input.) -/
+theorem vertex_guard_keeps_sums_nonvanishing (order n : Nat) (contribs : List (Nat × Cpx)) (i : Nat) :
+    (initVerts order n true contribs).getD i czero = czero ∨
+      Generated.C18.vertexGuardSq < normSq ((initVerts order n true contribs).getD i czero) := by
+  unfold initVerts
+  exact guardInv_foldl order contribs _ (guardInv_replicate n) i
+
+/-- every feature vertex is flagged fixed -/
+theorem feature_vertices_fixed (n : Nat) (featV : List Nat) (v : Nat) (hv : v < n) (hm : v ∈ featV) :
+    (fixedFlagsVerts n featV).getD v false = true := by
+  unfold fixedFlagsVerts
+  exact foldl_set_true_sets featV _ v (by simp; exact hv) hm
+
+/-- Constrained vertices are untouched by the solve (`var[freeInds] = res`) AND by the final normalisation when their
+constraint is unit (modulus `r = 1`): the vertex-based counterpart of `constrained_untouched` +
+`constrained_survive_normalize`, for any mesh, any solver output `res`. -/
+theorem vertex_constrained_untouched (n : Nat) (featV : List Nat) (var res : List Cpx) (v : Nat) (r : Rat)
+    (hv : v < n) (hm : v ∈ featV) (hunit : normSq (var.getD v czero) = 1) (hr : 0 < r)
+    (hsqrt : r * r = normSq ((scatter var (freeInds (fixedFlagsVerts n featV)) res).getD v czero)) :
+    normalize1 ((scatter var (freeInds (fixedFlagsVerts n featV)) res).getD v czero) r = var.getD v czero := by
+  have h1 := constrained_untouched (fixedFlagsVerts n featV) var res v (feature_vertices_fixed n featV v hv hm)
+  rw [h1] at hsqrt ⊢
+  exact normalize1_fixed _ r hunit hr hsqrt
+
+/-! ## singularities of the vertex-based field: one index per face -/
+
+/-- matching on a mesh edge `(A,B)`: `order × rot` is the transported phase difference plus a whole number -/
+theorem vertex_matching_quantised (n : Nat) (hn : 0 < n) (e : VEdge) :
+    ∃ j : Int, (n : Rat) * edgeRotV n e = (e.thB - e.thA) - (n : Rat) * (e.aB - e.aA) - (n : Rat) / 2 + (j : Rat) := by
+  obtain ⟨j, hj⟩ := edgeRot_quantised n hn e.thA e.aA e.thB (e.aB + 1/2)
+  refine ⟨j, ?_⟩
+  rw [edgeRotV_eq, hj]; ring
+
+/-- P1. For EVERY order `n ≥ 1`: `n × (holonomy of the matched rotations around a face + curvature term of the face)` is a
+whole number, i.e. the per-face index is an integer multiple of the quantum `1/n` turn (`2π/n`). The three rotations
+only need to satisfy the directed matching relation `Q` (see `vertex_face_index_quantised_mesh`); no geometric
+hypothesis is needed here because the curvature term is made of the same transports. -/
+theorem vertex_face_index_quantised (n : Nat) (θ : Nat → Rat) (t : Nat → Nat → Rat) (f : Face) (ρ1 ρ2 ρ3 : Rat)
+    (h1 : Q n θ t f.A f.B ρ1) (h2 : Q n θ t f.B f.C ρ2) (h3 : Q n θ t f.C f.A ρ3) :
+    ∃ K : Int, (n : Rat) * (ρ1 + ρ2 + ρ3 + curvature t f) = (K : Rat) :=
+  face_quantised n θ t f ρ1 ρ2 ρ3 h1 h2 h3
+
+/-- each half-edge of the face is carried by exactly one entry of the edge list -/
+def UniqueMatch (n : Nat) (es : List VEdge) (u v : Nat) : Prop :=
+  ∃ l1 e l2, es = l1 ++ e :: l2 ∧ Matches (e.toRE n) u v ∧
+    (∀ x ∈ l1, ¬ Matches (x.toRE n) u v) ∧ (∀ x ∈ l2, ¬ Matches (x.toRE n) u v)
+
+/-- P1, on a mesh: for any edge list whose entries carry the phases `θ` of the field and the transports `t` of the
+connection, and any face whose three half-edges are each carried by exactly one edge (in either direction),
+`order × faceAngle` is a whole number — whatever the field, the transports and the order are. -/
+theorem vertex_face_index_quantised_mesh (n : Nat) (hn : 0 < n) (θ : Nat → Rat) (t : Nat → Nat → Rat) (es : List VEdge) (f : Face)
+    (hcons : ∀ e ∈ es, Consistent θ t e ∧ e.a ≠ e.b)
+    (hAB : UniqueMatch n es f.A f.B) (hBC : UniqueMatch n es f.B f.C) (hCA : UniqueMatch n es f.C f.A) :
+    ∃ K : Int, (n : Rat) * faceAngle (es.map (VEdge.toRE n)) t f = (K : Rat) := by
+  have key : ∀ u v, UniqueMatch n es u v → Q n θ t u v (rotD (es.map (VEdge.toRE n)) u v) := by
+    intro u v ⟨l1, e, l2, hes, hm, h1, h2⟩
+    have he : e ∈ es := by rw [hes]; simp
+    rw [hes]
+    exact Q_of_unique n hn θ t l1 l2 e u v (hcons e he).1 (hcons e he).2 hm h1 h2
+  unfold faceAngle holonomy
+  exact face_quantised n θ t f _ _ _ (key _ _ hAB) (key _ _ hBC) (key _ _ hCA)
+
+/-- the index as a multiple of the quantum, for every order -/
+theorem vertex_face_index_multiple_of_quantum (n : Nat) (hn : 0 < n) (angle : Rat) (K : Int) (h : (n : Rat) * angle = (K : Rat)) :
+    angle = (K : Rat) * (1 / (n : Rat)) := by
+  have hn' : (n : Rat) ≠ 0 := by exact_mod_cast (Nat.pos_iff_ne_zero.mp hn)
+  rw [← h]; field_simp
+
+/-- P0. Σ over faces of the holonomies = Σ over edges of `rot × (#faces with (a,b) − #faces with (b,a))`, for ANY
+rotations, any face list, any edge list without self loops: every interior edge contributes `+rot` in one face and
+`−rot` in the other. -/
+theorem vertex_face_holonomy_telescopes (es : List RE) (fs : List Face) (hloop : ∀ e ∈ es, e.a ≠ e.b) :
+    sumF (holonomy es) fs = borderTerm es fs :=
+  holonomy_total es fs hloop
+
+/-- hence the face angles add up to the total curvature of the connection plus the border term … -/
+theorem vertex_face_index_sum_telescopes (es : List RE) (t : Nat → Nat → Rat) (fs : List Face) (hloop : ∀ e ∈ es, e.a ≠ e.b) :
+    sumF (faceAngle es t) fs = sumF (curvature t) fs + borderTerm es fs := by
+  unfold faceAngle
+  rw [sumF_add, holonomy_total es fs hloop]; ring
+
+/-- … and to the total curvature alone on a closed oriented surface (both half-edges of every edge occur equally often). -/
+theorem vertex_face_index_sum_closed (es : List RE) (t : Nat → Nat → Rat) (fs : List Face) (hloop : ∀ e ∈ es, e.a ≠ e.b)
+    (hclosed : ∀ e ∈ es, cnt fs e.a e.b = cnt fs e.b e.a) :
+    sumF (faceAngle es t) fs = sumF (curvature t) fs := by
+  rw [vertex_face_index_sum_telescopes es t fs hloop, borderTerm_zero es fs hclosed]; ring
+
+/-! ## bridges: the model's normal forms ARE what the source says now -/
+
+/-- `utils/maths.py: angle_diff` (with python's float `%`) is the model's `angleDiff` -/
+theorem bridge_angle_diff (a b : Rat) : C18V.angleDiff a b = FF.angleDiff a b := angleDiff_bridge a b
+
+/-- `utils/maths.py: roots`: the k-th root of a number of phase `t` has phase `(t + k)/pow` (turns) -/
+theorem bridge_roots (t : Rat) (n k : Nat) : C18V.rootPhase t n k = (t + (k : Rat)) / (n : Rat) := rootPhase_bridge t n k
+
+/-- `vertex2d.flag_singularities`: the list of candidates built from the source's own expressions is the model's -/
+theorem bridge_vertex_candidates (n : Nat) (e : VEdge) : candidatesSrc n e = candidatesV n e := candidates_bridge n e
+
+/-- `vertex2d.flag_singularities`: stores `+angle` at `(A,B)`, `−angle` at `(B,A)` and `−angle` in the edge attribute; sums the
+half-edges `(A,B),(B,C),(C,A)` and ADDS the curvature; `parallel_transport_curvature` multiplies over the same half-edges -/
+theorem bridge_vertex_flag_structure :
+    C18V.rotSignAB = 1 ∧ C18V.rotSignBA = -1 ∧ C18V.rotSignAttr = -1 ∧ C18V.curvatureSign = 1 ∧
+    C18V.faceHalfEdges = [(0, 1), (1, 2), (2, 0)] ∧ C18V.curvHalfEdges = [(0, 1), (1, 2), (2, 0)] := by decide
+
+theorem bridge_curv_term (tba tab : Rat) : C18V.curvTerm tba tab = FFV.curvTerm tba tab := curvTerm_bridge tba tab
+
+/-- `vertex2d._initialize_variables`: branch condition and normalisation threshold -/
+theorem bridge_vertex_init (s : Bool) (order : Nat) :
+    C18V.guardedBranch s order = FFV.guardedBranch s order ∧ C18V.featureNormThreshold = FFV.featThreshold :=
+  ⟨guardedBranch_bridge s order, featThreshold_bridge⟩
+
+/-- normal forms of the remaining translated formulas (a swapped operand, a changed constant or operator breaks one of these) -/
+theorem bridge_connection_formulas (ang corners cornerOrder d total angle1 angle2 order ai aj : Rat) :
+    C18V.dfct corners cornerOrder = corners / cornerOrder ∧
+    C18V.transportFeature ang d total = ang * d / total ∧
+    C18V.transportInterior ang total = ang / total ∧
+    C18V.transportFaces12 angle1 angle2 = angle1 - angle2 ∧
+    C18V.transportFaces21 angle1 angle2 = angle2 - angle1 ∧
+    C18V.lapPhaseIJ order ai aj = order * (ai - aj - 1/2) ∧
+    C18V.lapPhaseJI order ai aj = order * (aj - ai - 1/2) := by
+  unfold C18V.dfct C18V.transportFeature C18V.transportInterior C18V.transportFaces12 C18V.transportFaces21
+    C18V.lapPhaseIJ C18V.lapPhaseJI
+  refine ⟨by ring, by ring, by ring, by ring, by ring, by ring, by ring⟩
+
+/-- thresholds of `vertex2d.flag_singularities` and of the feature normalisation, as the model / harness use them -/
+theorem bridge_vertex_thresholds : C18V.zeroThresholdV = 1 / 100 ∧ C18V.featureNormThreshold = 1 / 100000000 := by
+  unfold C18V.zeroThresholdV C18V.featureNormThreshold; constructor <;> norm_num
+
+/-! ## the connection (`connection.py`) and the operator phases (`laplacian_op.py`), on the translated formulas -/
+
+/-- interior vertex: the rescaling `ang * 2π / Σangles` is linear and maps the whole ring to exactly one turn -/
+theorem connection_interior_rescale (a b total : Rat) (ht : total ≠ 0) :
+    C18V.transportInterior (a + b) total = C18V.transportInterior a total + C18V.transportInterior b total ∧
+    C18V.transportInterior total total = 1 := by
+  unfold C18V.transportInterior
+  constructor
+  · field_simp
+  · field_simp
+
+/-- feature / border vertex: the whole ring is mapped to `corners / corner_order` turns, so `corner_order ×` the angle of the
+last border edge is the integer `corners`: for `corner_order = order` both border edges of a vertex get the SAME
+representation `exp(i·order·angle) = 1` (their constraints agree, the sum in `_initialize_variables` does not cancel). -/
+theorem connection_feature_ring_closes_on_quantum (corners cornerOrder total : Rat) (ht : total ≠ 0) (hc : cornerOrder ≠ 0) :
+    cornerOrder * C18V.transportFeature total (C18V.dfct corners cornerOrder) total = corners := by
+  unfold C18V.transportFeature C18V.dfct
+  field_simp
+
+/-- face connection: the two stored transports of an interior edge are opposite -/
+theorem connection_face_transports_opposite (angle1 angle2 : Rat) :
+    C18V.transportFaces12 angle1 angle2 + C18V.transportFaces21 angle1 angle2 = 0 := by
+  unfold C18V.transportFaces12 C18V.transportFaces21; ring
+
+/-- `laplacian` (vertices): the phases of the coefficients `(i,j)` and `(j,i)` add up to `−order` turns — a whole number —
+so the two unit complex numbers are inverse of each other: this is the hypothesis of
+`connection_laplacian_hermitian_vertices` ("the phases sum to −2π·order"). -/
+theorem laplacian_vertex_phases_sum (order ai aj : Rat) :
+    C18V.lapPhaseIJ order ai aj + C18V.lapPhaseJI order ai aj = -order := by
+  unfold C18V.lapPhaseIJ C18V.lapPhaseJI; ring
+
+/-- `laplacian_triangles`: the only complex entry of a row of `Nabla` has phase `order × transport(T1,T2)` (the input `t`
+of `entryFace`), the other entry is `-1` (checked by the translator) -/
+theorem laplacian_faces_phase (order t12 t21 : Rat) : C18V.nablaPhaseT2 order t12 t21 = order * t12 := by
+  unfold C18V.nablaPhaseT2; ring
+
+/-- the curvature term of a half-edge is minus the sum of … : the phases used by `laplacian` and by
+`parallel_transport_curvature` are the same transports: `lapPhaseJI order ai aj = order × curvTerm aj ai` -/
+theorem laplacian_phase_is_order_times_curv_term (order ai aj : Rat) :
+    C18V.lapPhaseJI order ai aj = order * C18V.curvTerm aj ai := by
+  unfold C18V.lapPhaseJI C18V.curvTerm; ring
+
+/-! ## non-vacuity (vertex part) -/
+example : UniqueMatch 4 [⟨0, 1, 0, 0, 0, 0⟩, ⟨1, 2, 0, 0, 0, 0⟩, ⟨0, 2, 0, 0, 0, 0⟩] 2 0 :=
+  ⟨[⟨0, 1, 0, 0, 0, 0⟩, ⟨1, 2, 0, 0, 0, 0⟩], ⟨0, 2, 0, 0, 0, 0⟩, [], rfl, Or.inr ⟨rfl, rfl⟩,
+   by intro x hx; simp at hx; rcases hx with rfl | rfl <;> (unfold Matches; simp [VEdge.toRE]),
+   by intro x hx; simp at hx⟩
+example : Consistent (fun _ => 0) (fun _ _ => 0) ⟨0, 1, 0, 0, 0, 0⟩ := ⟨rfl, rfl, rfl, rfl⟩
+example : cnt [⟨0, 1, 2⟩, ⟨0, 2, 3⟩] 0 2 = 1 ∧ cnt [⟨0, 1, 2⟩, ⟨0, 2, 3⟩] 2 0 = 1 := by
+  unfold cnt sumF ind; simp
+example : ([3, 5] : List Nat).Nodup ∧ 5 ∈ [3, 5] := by decide
+
+end Vertex
 
 end Mouette.Props.C18
